@@ -4,6 +4,7 @@
   `SInv` additionally between the operations of crash-free histories.
 -/
 import Wormhole.Reach
+import Wormhole.Inv.WsInv
 
 namespace Wormhole
 namespace GSys
@@ -21,6 +22,165 @@ structure GInv (g : GSys) : Prop where
   usedConn : ∀ x ∈ g.sys.conns, ∀ m, x.mailboxId = some m → m ∈ g.used
   /-- no row is stamped later than the latest time seen -/
   clockMb : ∀ m ∈ g.sys.db.mailboxes, m.updated ≤ g.clock
+
+/-! ## `GInv` holds in every reachable state
+
+  Proof: `GInv` of the state before an operation gives `Sys.Full U t S` of the cleared state
+  (Inv/WsInv.lean), with `U` = "mentioned so far, this operation included" and `t` = the
+  operation's time; every plain operation preserves `Full` (`Sys.stepPlain_full`); `Full`
+  afterwards, together with the commit discipline (`Sys.Ok`, Inv/SyncLemmas.lean), gives `GInv`
+  again.  A crash keeps one of the snapshots, all of which satisfy `CInv` by `Full`. -/
+
+/-- the time operation `op` runs at -/
+def opTime (g : GSys) (op : Op) : Time := match op.time? with | some t => t | none => g.clock
+
+/-- the mailbox ids known once `op` has been received -/
+def opU (g : GSys) (op : Op) : String → Prop := fun m => m ∈ g.used ++ op.mailboxIds
+
+/-- the state an operation starts from -/
+abbrev cleared (g : GSys) : Sys := { g.sys with out := [], snaps := [] }
+
+theorem clock_le_opTime {g : GSys} {op : Op} (hmono : ∀ t, op.time? = some t → g.clock ≤ t) :
+    g.clock ≤ g.opTime op := by
+  unfold opTime
+  split
+  · rename_i t e; exact hmono t e
+  · exact Int.le_refl _
+
+theorem GInv.full {g : GSys} (h : g.GInv) {S : Prop} (hS : S → g.sys.db.SExtra) (op : Op)
+    (hmono : ∀ t, op.time? = some t → g.clock ≤ t) : g.cleared.Full (g.opU op) (g.opTime op) S := by
+  have hclk := clock_le_opTime hmono
+  have hcq : g.sys.db.CQ (g.opU op) (g.opTime op) :=
+    ⟨h.cinv, fun m hm => ⟨List.mem_append_left _ (h.used m hm), Int.le_trans (h.clockMb m hm) hclk⟩⟩
+  refine ⟨⟨⟨hcq, ⟨?_, ?_⟩, ?_⟩, hS⟩, h.conn.ids, ?_⟩
+  · show g.sys.disk.CQ _ _
+    rw [← h.synced.1]; exact hcq
+  · intro p hp; simp at hp
+  · intro x hx _ mb hm
+    exact (h.conn.handle x hx mb hm).2
+  · intro x hx
+    refine ⟨⟨?_, h.conn.listen x hx, h.conn.bound x hx⟩, ?_⟩
+    · intro hm
+      obtain ⟨mb, e⟩ := Option.isSome_iff_exists.1 hm
+      exact (h.conn.handle x hx mb e).1
+    · intro m hm
+      exact List.mem_append_left _ (h.usedConn x hx m hm)
+
+theorem connInv_of_full {s : Sys} {U : String → Prop} {t : Time} {S : Prop} (h : s.Full U t S) : s.ConnInv := by
+  refine ⟨h.ids, ?_, fun x hx => (h.conn x hx).1.lm, fun x hx => (h.conn x hx).1.bound⟩
+  intro x hx mb hm
+  have hl := (h.conn x hx).1.hl (by simp [hm])
+  exact ⟨hl, h.good.lh x hx hl mb hm⟩
+
+/-- `Full` after the step, with nothing uncommitted, is `GInv` of the next ghost state -/
+theorem ginv_of_full {g' : GSys} {U : String → Prop} {t : Time} {S : Prop} (hF : g'.sys.Full U t S)
+    (hs : g'.sys.Synced) (hU : ∀ m, U m → m ∈ g'.used) (ht : t = g'.clock) : g'.GInv := by
+  refine ⟨hF.good.db.cinv, connInv_of_full hF, hs, ?_, ?_, ?_⟩
+  · intro m hm; exact hU _ (hF.good.db.q m hm).1
+  · intro x hx m hm; exact hU _ ((hF.conn x hx).2 m hm)
+  · intro m hm; rw [← ht]; exact (hF.good.db.q m hm).2
+
+/-- one plain operation from a state satisfying `GInv` -/
+theorem GInv.plain_full {g : GSys} (h : g.GInv) {S : Prop} (hS : S → g.sys.db.SExtra) (op : Op)
+    (hmono : ∀ t, op.time? = some t → g.clock ≤ t)
+    (hconn : ∀ c, op = .connect c → ∀ x ∈ g.sys.conns, x.id ≠ c) :
+    (g.cleared.stepPlain op).Full (g.opU op) (g.opTime op) S ∧
+      Sys.OutExt (IntOnly (g.cleared.OpIntCause op)) g.cleared (g.cleared.stepPlain op) := by
+  refine Sys.stepPlain_full (h.full hS op hmono) h.synced.1 op hconn ?_ ?_
+  · intro m hm; exact List.mem_append_right _ hm
+  · intro t' e
+    unfold opTime; rw [e]
+
+theorem step_clock (g : GSys) (op : Op) : (g.step op).clock = g.opTime op := rfl
+
+/-- what a crash leaves: one of the snapshots of the uncrashed run (or the state before it),
+    no process state -/
+theorem step_crash_spec (s : Sys) (k : Nat) (op : Op) :
+    ∃ p : Chan × Usage,
+      (p ∈ (({ s with out := [], snaps := [] } : Sys).stepPlain op).snaps ∨
+        p = ((({ s with out := [], snaps := [] } : Sys).stepPlain op).disk,
+              (({ s with out := [], snaps := [] } : Sys).stepPlain op).udisk) ∨ p = (s.disk, s.udisk)) ∧
+      (s.step (.crashIn k op)).db = p.1 ∧ (s.step (.crashIn k op)).disk = p.1 ∧
+      (s.step (.crashIn k op)).udb = p.2 ∧ (s.step (.crashIn k op)).udisk = p.2 ∧
+      (s.step (.crashIn k op)).conns = [] := by
+  unfold Sys.step
+  dsimp only
+  split
+  · exact ⟨(s.disk, s.udisk), Or.inr (Or.inr rfl), rfl, rfl, rfl, rfl, rfl⟩
+  · rename_i p _ hp
+    exact ⟨p, Or.inl (List.mem_of_getElem? hp), rfl, rfl, rfl, rfl, rfl⟩
+  · exact ⟨_, Or.inr (Or.inl rfl), rfl, rfl, rfl, rfl, rfl⟩
+
+/-- every state a crash inside `op` can leave on disk satisfies the commit-point invariant
+    and the ghost facts -/
+theorem GInv.crash_cq {g : GSys} (h : g.GInv) (op : Op)
+    (hmono : ∀ t, op.time? = some t → g.clock ≤ t)
+    (hconn : ∀ c, op = .connect c → ∀ x ∈ g.sys.conns, x.id ≠ c) (k : Nat) :
+    (g.sys.step (.crashIn k op)).db.CQ (g.opU op) (g.opTime op) ∧ (g.sys.step (.crashIn k op)).Synced ∧
+      (g.sys.step (.crashIn k op)).conns = [] := by
+  obtain ⟨hF, _⟩ := h.plain_full (S := False) False.elim op hmono hconn
+  obtain ⟨p, hp, e1, e2, e3, e4, e5⟩ := step_crash_spec g.sys k op
+  refine ⟨?_, ⟨by rw [e1, e2], by rw [e3, e4]⟩, e5⟩
+  rw [e1]
+  rcases hp with hp | rfl | rfl
+  · exact hF.good.d.snaps p hp
+  · exact hF.good.d.disk
+  · exact (h.full (S := False) False.elim op hmono).good.d.disk
+
+/-- **one step preserves `GInv`**, crashes included -/
+theorem GInv.step {g : GSys} (h : g.GInv) (op : Op) (hw : g.WFOp op) : (g.step op).GInv := by
+  cases hc : op.isCrash with
+  | false =>
+    obtain ⟨hF, _⟩ := h.plain_full (S := False) False.elim op hw.mono hw.connFresh
+    have hs : (g.sys.step op).Synced := (Sys.Ok.step h.synced h.cinv.npOk hc).synced
+    have he : g.sys.step op = g.cleared.stepPlain op := Sys.step_eq_of_not_crash g.sys hc
+    refine ginv_of_full (U := g.opU op) (t := g.opTime op) (S := False) ?_ hs (fun m hm => hm) rfl
+    show (g.sys.step op).Full _ _ _
+    rw [he]; exact hF
+  | true =>
+    cases op with
+    | crashIn k op' =>
+      obtain ⟨hp, hcf⟩ := hw.crashPlain k op' rfl
+      obtain ⟨hcq, hs, hcn⟩ := h.crash_cq op' hw.mono hcf k
+      refine ⟨hcq.cinv, ?_, hs, ?_, ?_, ?_⟩
+      · refine ⟨?_, ?_, ?_, ?_⟩ <;>
+          (show _ ; simp only [GSys.step, hcn]) <;> simp
+      · intro m hm; exact (hcq.q m hm).1
+      · intro x hx
+        simp only [GSys.step, hcn] at hx
+        simp at hx
+      · intro m hm; exact (hcq.q m hm).2
+    | _ => simp [Op.isCrash] at hc
+
+theorem GInv.init (cfg : Cfg) (rb : Time) : (GSys.init cfg rb).GInv := by
+  refine ⟨⟨⟨?_, ?_, ⟨?_, ?_⟩, ?_, ?_, ?_, ?_, ?_, ?_, ?_⟩, ?_⟩, ⟨?_, ?_, ?_, ?_⟩, ⟨rfl, rfl⟩, ?_, ?_, ?_⟩ <;>
+    simp [GSys.init]
+
+/-- **(A)** every state reachable by a well-formed history (crashes at any commit boundary of
+    any operation included) satisfies `GInv` -/
+theorem Reach.ginv {g : GSys} (h : g.Reach) : g.GInv := by
+  induction h with
+  | init cfg rb => exact GInv.init cfg rb
+  | step op _ hw ih => exact ih.step op hw
+
+/-- a crash-free step preserves the strengthening -/
+theorem GInv.step_sextra {g : GSys} (h : g.GInv) (hS : g.sys.db.SExtra) (op : Op) (hw : g.WFOp op)
+    (hc : op.isCrash = false) : (g.step op).sys.db.SExtra := by
+  obtain ⟨hF, _⟩ := h.plain_full (S := True) (fun _ => hS) op hw.mono hw.connFresh
+  have he : g.sys.step op = g.cleared.stepPlain op := Sys.step_eq_of_not_crash g.sys hc
+  show (g.sys.step op).db.SExtra
+  rw [he]; exact hF.good.sx trivial
+
+theorem ReachCF.ginv_sextra {g : GSys} (h : g.ReachCF) : g.GInv ∧ g.sys.db.SExtra := by
+  induction h with
+  | init cfg rb =>
+    refine ⟨GInv.init cfg rb, ⟨?_, ?_⟩⟩ <;> simp [GSys.init]
+  | step op _ hw hc ih => exact ⟨ih.1.step op hw, ih.1.step_sextra ih.2 op hw hc⟩
+
+/-- **(B)** between the operations of a crash-free history every nameplate has a claimed side row
+    and every mailbox has an opened side row -/
+theorem ReachCF.sinv {g : GSys} (h : g.ReachCF) : g.sys.db.SInv :=
+  Chan.SInv.of h.ginv_sextra.1.cinv h.ginv_sextra.2
 
 end GSys
 end Wormhole
